@@ -46,6 +46,9 @@ fn main() {
     if let Some(job) = args.extra.get("child") {
         c38::child_main(job);
     }
+    if args.prop == "C40" && !args.extra.contains_key("inner") {
+        c40::supervise(args);
+    }
     let mut ctx = Ctx::new(args);
     watchdog(ctx.prop().to_string(), ctx.tier().pick(50 * 60, 8 * 3600));
     // harness / infrastructure trouble is never a verdict
@@ -53,11 +56,11 @@ fn main() {
     // a vacuous run must not look like a pass (DESIGN section 5)
     ctx.floor = match ctx.prop() {
         "C36" | "C37" => 2000,
-        "C38" => 60,
-        "C39" => 40,
-        "C40" => 300,
-        "C31" => 80,
-        "C34" => 60,
+        "C38" => 300,
+        "C39" => 200,
+        "C40" => 1000,
+        "C31" => 500,
+        "C34" => 300,
         _ => 2,
     };
     match ctx.prop().to_string().as_str() {
